@@ -1616,7 +1616,7 @@ class TOTP:
         # go ahead and mark as changed (needs re-saving) if the version is too old
         cls._check_otp_type(type)
         ver = kwds.pop("v", None)
-        if not ver or ver < cls.min_json_version or ver > cls.json_version:
+        if not ver or not (cls.min_json_version <= ver <= cls.json_version):
             raise cls._dict_parse_error(f"missing/unsupported version ({ver!r})")
         if ver != cls.json_version:
             # mark older version as needing re-serializing
